@@ -6,9 +6,11 @@ package seams
 import (
 	"sort"
 
+	"github.com/EliCDavis/polyform/generator/parameter"
 	"github.com/EliCDavis/polyform/nodes"
 
 	"verif/internal/choice"
+	"verif/internal/detsched"
 )
 
 // mapOrder is the chooser that decides "map iteration order" in
@@ -35,6 +37,9 @@ func (s sorter) Less(i, j int) bool { return s.less(i, j) }
 func (s sorter) Swap(i, j int)      { s.swap(i, j) }
 
 func init() {
+	// call sites for these two are inserted mechanically (internal/autoyield)
+	nodes.VerifYield = func(site string) { detsched.Yield(site, 0) }
+	parameter.VerifYield = func(site string) { detsched.Yield(site, 0) }
 	nodes.VerifPermute = func(n int, less func(i, j int) bool, swap func(i, j int)) {
 		if n < 2 {
 			return
